@@ -261,213 +261,213 @@ static int ref_setop(int op, int c, const int *a, int na, const int *b, int nb, 
 
 /* ============================================================ groups =========================================================
  * <name>: quick, len<=4 (or as stated in bound=); <name>_t: the tier=thorough twin with len<=6; *_mod3: the a % 3 comparator / predicate */
-/*@GROUP name=rotate props=C06,C02 kind=B bound=len<=4 unwind=7 solver=kissat timeout=600@*/
+/*@GROUP name=rotate props=C06,C02 kind=B bound=len<=4 unwind=7 solver=kissat objbits=12 timeout=600@*/
 void h_rotate(void) B_ROTATE(4, a_rotate)
-/*@GROUP name=rotate_t props=C06,C02 kind=B bound=len<=6 unwind=9 solver=kissat tier=thorough timeout=3000@*/
+/*@GROUP name=rotate_t props=C06,C02 kind=B bound=len<=6 unwind=9 solver=kissat tier=thorough objbits=13 timeout=3000@*/
 void h_rotate_t(void) B_ROTATE(6, a_rotate)
-/*@GROUP name=rotate_fwd props=C06,C02 kind=B bound=len<=4 unwind=7 solver=kissat timeout=600@*/
+/*@GROUP name=rotate_fwd props=C06,C02 kind=B bound=len<=4 unwind=7 solver=kissat objbits=12 timeout=600@*/
 void h_rotate_fwd(void) B_ROTATE(4, a_rotate_fwd)
-/*@GROUP name=rotate_fwd_t props=C06,C02 kind=B bound=len<=6 unwind=9 solver=kissat tier=thorough timeout=3000@*/
+/*@GROUP name=rotate_fwd_t props=C06,C02 kind=B bound=len<=6 unwind=9 solver=kissat tier=thorough objbits=13 timeout=3000@*/
 void h_rotate_fwd_t(void) B_ROTATE(6, a_rotate_fwd)
-/*@GROUP name=rotate_copy props=C06,C02 kind=B bound=len<=4 unwind=7 solver=kissat timeout=600@*/
+/*@GROUP name=rotate_copy props=C06,C02 kind=B bound=len<=4 unwind=7 solver=kissat objbits=12 timeout=600@*/
 void h_rotate_copy(void) B_ROTATE_COPY(4)
-/*@GROUP name=rotate_copy_t props=C06,C02 kind=B bound=len<=6 unwind=9 solver=kissat tier=thorough timeout=3000@*/
+/*@GROUP name=rotate_copy_t props=C06,C02 kind=B bound=len<=6 unwind=9 solver=kissat tier=thorough objbits=13 timeout=3000@*/
 void h_rotate_copy_t(void) B_ROTATE_COPY(6)
-/*@GROUP name=shift_left props=C06,C02 kind=B bound=len<=4,n_in_[-1,len+1] unwind=7 solver=kissat timeout=600@*/
+/*@GROUP name=shift_left props=C06,C02 kind=B bound=len<=4,n_in_[-1,len+1] unwind=7 solver=kissat objbits=12 timeout=600@*/
 void h_shift_left(void) B_SHIFT_LEFT(4, a_shift_left)
-/*@GROUP name=shift_left_t props=C06,C02 kind=B bound=len<=6,n_in_[-1,len+1] unwind=9 solver=kissat tier=thorough timeout=3000@*/
+/*@GROUP name=shift_left_t props=C06,C02 kind=B bound=len<=6,n_in_[-1,len+1] unwind=9 solver=kissat tier=thorough objbits=13 timeout=3000@*/
 void h_shift_left_t(void) B_SHIFT_LEFT(6, a_shift_left)
-/*@GROUP name=shift_left_fwd props=C06,C02 kind=B bound=len<=4,n_in_[-1,len+1] unwind=7 solver=kissat timeout=600@*/
+/*@GROUP name=shift_left_fwd props=C06,C02 kind=B bound=len<=4,n_in_[-1,len+1] unwind=7 solver=kissat objbits=12 timeout=600@*/
 void h_shift_left_fwd(void) B_SHIFT_LEFT(4, a_shift_left_fwd)
-/*@GROUP name=shift_left_fwd_t props=C06,C02 kind=B bound=len<=6,n_in_[-1,len+1] unwind=9 solver=kissat tier=thorough timeout=3000@*/
+/*@GROUP name=shift_left_fwd_t props=C06,C02 kind=B bound=len<=6,n_in_[-1,len+1] unwind=9 solver=kissat tier=thorough objbits=13 timeout=3000@*/
 void h_shift_left_fwd_t(void) B_SHIFT_LEFT(6, a_shift_left_fwd)
-/*@GROUP name=shift_right props=C06,C02 kind=B bound=len<=4,n_in_[-1,len+1] unwind=7 solver=kissat timeout=600@*/
+/*@GROUP name=shift_right props=C06,C02 kind=B bound=len<=4,n_in_[-1,len+1] unwind=7 solver=kissat objbits=12 timeout=600@*/
 void h_shift_right(void) B_SHIFT_RIGHT(4, a_shift_right, VF_KNOWN(C06_shift_right_first_lost, s > 0 && s < n && a_in[0] != 0); VF_KNOWN(C06_shift_right_zero_returns_last, s == 0 && n > 0))
-/*@GROUP name=shift_right_t props=C06,C02 kind=B bound=len<=6,n_in_[-1,len+1] unwind=9 solver=kissat tier=thorough timeout=3000@*/
+/*@GROUP name=shift_right_t props=C06,C02 kind=B bound=len<=6,n_in_[-1,len+1] unwind=9 solver=kissat tier=thorough objbits=13 timeout=3000@*/
 void h_shift_right_t(void) B_SHIFT_RIGHT(6, a_shift_right, VF_KNOWN(C06_shift_right_first_lost, s > 0 && s < n && a_in[0] != 0); VF_KNOWN(C06_shift_right_zero_returns_last, s == 0 && n > 0))
-/*@GROUP name=shift_right_bidi props=C06,C02 kind=B bound=len<=4,n_in_[-1,len+1] unwind=7 solver=kissat timeout=600@*/
+/*@GROUP name=shift_right_bidi props=C06,C02 kind=B bound=len<=4,n_in_[-1,len+1] unwind=7 solver=kissat objbits=12 timeout=600@*/
 void h_shift_right_bidi(void) B_SHIFT_RIGHT(4, a_shift_right_bidi, VF_KNOWN(C06_shift_right_first_lost, s > 0 && s < n && a_in[0] != 0); VF_KNOWN(C06_shift_right_zero_returns_last, s == 0 && n > 0))
-/*@GROUP name=shift_right_bidi_t props=C06,C02 kind=B bound=len<=6,n_in_[-1,len+1] unwind=9 solver=kissat tier=thorough timeout=3000@*/
+/*@GROUP name=shift_right_bidi_t props=C06,C02 kind=B bound=len<=6,n_in_[-1,len+1] unwind=9 solver=kissat tier=thorough objbits=13 timeout=3000@*/
 void h_shift_right_bidi_t(void) B_SHIFT_RIGHT(6, a_shift_right_bidi, VF_KNOWN(C06_shift_right_first_lost, s > 0 && s < n && a_in[0] != 0); VF_KNOWN(C06_shift_right_zero_returns_last, s == 0 && n > 0))
-/*@GROUP name=partition props=C06,C02 kind=B bound=len<=4 unwind=7 solver=kissat timeout=600@*/
+/*@GROUP name=partition props=C06,C02 kind=B bound=len<=4 unwind=7 solver=kissat objbits=12 timeout=600@*/
 void h_partition(void) B_PARTITION(4, a_partition, 0, 1)
-/*@GROUP name=partition_t props=C06,C02 kind=B bound=len<=6 unwind=9 solver=kissat tier=thorough timeout=3000@*/
+/*@GROUP name=partition_t props=C06,C02 kind=B bound=len<=6 unwind=9 solver=kissat tier=thorough objbits=13 timeout=3000@*/
 void h_partition_t(void) B_PARTITION(6, a_partition, 0, 1)
-/*@GROUP name=partition_fwd props=C06,C02 kind=B bound=len<=4 unwind=7 solver=kissat timeout=600@*/
+/*@GROUP name=partition_fwd props=C06,C02 kind=B bound=len<=4 unwind=7 solver=kissat objbits=12 timeout=600@*/
 void h_partition_fwd(void) B_PARTITION(4, a_partition_fwd, 0, 1)
-/*@GROUP name=partition_fwd_t props=C06,C02 kind=B bound=len<=6 unwind=9 solver=kissat tier=thorough timeout=3000@*/
+/*@GROUP name=partition_fwd_t props=C06,C02 kind=B bound=len<=6 unwind=9 solver=kissat tier=thorough objbits=13 timeout=3000@*/
 void h_partition_fwd_t(void) B_PARTITION(6, a_partition_fwd, 0, 1)
-/*@GROUP name=partition_mod3 props=C06,C02 kind=B bound=len<=4,values_in_[-4,4] unwind=7 solver=kissat timeout=600@*/
+/*@GROUP name=partition_mod3 props=C06,C02 kind=B bound=len<=4,values_in_[-4,4] unwind=7 solver=kissat objbits=12 timeout=600@*/
 void h_partition_mod3(void) B_PARTITION(4, a_partition, 2, 2)
-/*@GROUP name=partition_mod3_t props=C06,C02 kind=B bound=len<=6,values_in_[-4,4] unwind=9 solver=kissat tier=thorough timeout=3000@*/
+/*@GROUP name=partition_mod3_t props=C06,C02 kind=B bound=len<=6,values_in_[-4,4] unwind=9 solver=kissat tier=thorough objbits=13 timeout=3000@*/
 void h_partition_mod3_t(void) B_PARTITION(6, a_partition, 2, 2)
-/*@GROUP name=stable_partition props=C06,C02 kind=B bound=len<=4 unwind=7 solver=kissat timeout=600@*/
+/*@GROUP name=stable_partition props=C06,C02 kind=B bound=len<=4 unwind=7 solver=kissat objbits=12 timeout=600@*/
 void h_stable_partition(void) B_STABLE_PARTITION(4)
-/*@GROUP name=stable_partition_t props=C06,C02 kind=B bound=len<=6 unwind=9 solver=kissat tier=thorough timeout=3000@*/
+/*@GROUP name=stable_partition_t props=C06,C02 kind=B bound=len<=6 unwind=9 solver=kissat tier=thorough objbits=13 timeout=3000@*/
 void h_stable_partition_t(void) B_STABLE_PARTITION(6)
-/*@GROUP name=partition_copy props=C06,C02 kind=B bound=len<=4 unwind=7 solver=kissat timeout=600@*/
+/*@GROUP name=partition_copy props=C06,C02 kind=B bound=len<=4 unwind=7 solver=kissat objbits=12 timeout=600@*/
 void h_partition_copy(void) B_PARTITION_COPY(4)
-/*@GROUP name=partition_copy_t props=C06,C02 kind=B bound=len<=6 unwind=9 solver=kissat tier=thorough timeout=3000@*/
+/*@GROUP name=partition_copy_t props=C06,C02 kind=B bound=len<=6 unwind=9 solver=kissat tier=thorough objbits=13 timeout=3000@*/
 void h_partition_copy_t(void) B_PARTITION_COPY(6)
-/*@GROUP name=sort props=C06,C02 kind=B bound=len<=3 unwind=12 solver=kissat timeout=600@*/
+/*@GROUP name=sort props=C06,C02 kind=B bound=len<=3 unwind=12 solver=kissat objbits=12 timeout=600@*/
 void h_sort(void) B_SORT(3, a_sort, 0, 2, 0)
-/*@GROUP name=sort_t props=C06,C02 kind=B bound=len<=5 unwind=28 solver=kissat tier=thorough timeout=3000@*/
-void h_sort_t(void) B_SORT(5, a_sort, 0, 2, 0)
-/*@GROUP name=sort_mod3 props=C06,C02 kind=B bound=len<=3,values_in_[-4,4] unwind=12 solver=kissat timeout=600@*/
+/*@GROUP name=sort_t props=C06,C02 kind=B bound=len<=4 unwind=19 solver=kissat tier=thorough objbits=13 timeout=3000@*/
+void h_sort_t(void) B_SORT(4, a_sort, 0, 2, 0)
+/*@GROUP name=sort_mod3 props=C06,C02 kind=B bound=len<=3,values_in_[-4,4] unwind=12 solver=kissat objbits=12 timeout=600@*/
 void h_sort_mod3(void) B_SORT(3, a_sort, 3, 3, 0)
-/*@GROUP name=sort_mod3_t props=C06,C02 kind=B bound=len<=5,values_in_[-4,4] unwind=28 solver=kissat tier=thorough timeout=3000@*/
-void h_sort_mod3_t(void) B_SORT(5, a_sort, 3, 3, 0)
-/*@GROUP name=gnome_sort props=C06,C02 kind=B bound=len<=3 unwind=12 solver=kissat timeout=600@*/
+/*@GROUP name=sort_mod3_t props=C06,C02 kind=B bound=len<=4,values_in_[-4,4] unwind=19 solver=kissat tier=thorough objbits=13 timeout=3000@*/
+void h_sort_mod3_t(void) B_SORT(4, a_sort, 3, 3, 0)
+/*@GROUP name=gnome_sort props=C06,C02 kind=B bound=len<=3 unwind=12 solver=kissat objbits=12 timeout=600@*/
 void h_gnome_sort(void) B_SORT(3, a_gnome_sort, 0, 2, 0)
-/*@GROUP name=gnome_sort_t props=C06,C02 kind=B bound=len<=5 unwind=28 solver=kissat tier=thorough timeout=3000@*/
+/*@GROUP name=gnome_sort_t props=C06,C02 kind=B bound=len<=5 unwind=28 solver=kissat tier=thorough objbits=13 timeout=3000@*/
 void h_gnome_sort_t(void) B_SORT(5, a_gnome_sort, 0, 2, 0)
 /*@GROUP name=gnome_sort_bidi props=C06,C02 kind=B bound=len<=3 unwind=12 solver=kissat objbits=12 timeout=600@*/
 void h_gnome_sort_bidi(void) B_SORT(3, a_gnome_sort_bidi, 0, 2, 0)
-/*@GROUP name=gnome_sort_bidi_t props=C06,C02 kind=B bound=len<=5 unwind=28 solver=kissat tier=thorough objbits=13 timeout=3000@*/
-void h_gnome_sort_bidi_t(void) B_SORT(5, a_gnome_sort_bidi, 0, 2, 0)
-/*@GROUP name=bubble_sort props=C06,C02 kind=B bound=len<=4 unwind=7 solver=kissat timeout=600@*/
+/*@GROUP name=gnome_sort_bidi_t props=C06,C02 kind=B bound=len<=4 unwind=19 solver=kissat tier=thorough objbits=13 timeout=3000@*/
+void h_gnome_sort_bidi_t(void) B_SORT(4, a_gnome_sort_bidi, 0, 2, 0)
+/*@GROUP name=bubble_sort props=C06,C02 kind=B bound=len<=4 unwind=7 solver=kissat objbits=12 timeout=600@*/
 void h_bubble_sort(void) B_SORT(4, a_bubble_sort, 0, 2, 0)
-/*@GROUP name=bubble_sort_t props=C06,C02 kind=B bound=len<=6 unwind=9 solver=kissat tier=thorough timeout=3000@*/
+/*@GROUP name=bubble_sort_t props=C06,C02 kind=B bound=len<=6 unwind=9 solver=kissat tier=thorough objbits=13 timeout=3000@*/
 void h_bubble_sort_t(void) B_SORT(6, a_bubble_sort, 0, 2, 0)
-/*@GROUP name=exchange_sort props=C06,C02 kind=B bound=len<=4 unwind=7 solver=kissat timeout=600@*/
+/*@GROUP name=exchange_sort props=C06,C02 kind=B bound=len<=4 unwind=7 solver=kissat objbits=12 timeout=600@*/
 void h_exchange_sort(void) B_SORT(4, a_exchange_sort, 0, 2, 1)
-/*@GROUP name=exchange_sort_t props=C06,C02 kind=B bound=len<=6 unwind=9 solver=kissat tier=thorough timeout=3000@*/
+/*@GROUP name=exchange_sort_t props=C06,C02 kind=B bound=len<=6 unwind=9 solver=kissat tier=thorough objbits=13 timeout=3000@*/
 void h_exchange_sort_t(void) B_SORT(6, a_exchange_sort, 0, 2, 1)
 /*@GROUP name=partial_sort props=C06,C02 kind=B bound=len<=3 unwind=12 solver=kissat objbits=12 timeout=600@*/
 void h_partial_sort(void) B_PARTIAL_SORT(3, 0, 2)
-/*@GROUP name=partial_sort_t props=C06,C02 kind=B bound=len<=5 unwind=28 solver=kissat tier=thorough objbits=13 timeout=3000@*/
-void h_partial_sort_t(void) B_PARTIAL_SORT(5, 0, 2)
+/*@GROUP name=partial_sort_t props=C06,C02 kind=B bound=len<=4 unwind=19 solver=kissat tier=thorough objbits=13 timeout=3000@*/
+void h_partial_sort_t(void) B_PARTIAL_SORT(4, 0, 2)
 /*@GROUP name=nth_element props=C06,C02 kind=B bound=len<=3 unwind=12 solver=kissat objbits=12 timeout=600@*/
 void h_nth_element(void) B_NTH_ELEMENT(3, 0, 2)
-/*@GROUP name=nth_element_t props=C06,C02 kind=B bound=len<=5 unwind=28 solver=kissat tier=thorough objbits=13 timeout=3000@*/
-void h_nth_element_t(void) B_NTH_ELEMENT(5, 0, 2)
-/*@GROUP name=stable_sort props=C06,C02 kind=B bound=len<=4 unwind=7 solver=kissat timeout=600@*/
+/*@GROUP name=nth_element_t props=C06,C02 kind=B bound=len<=4 unwind=19 solver=kissat tier=thorough objbits=13 timeout=3000@*/
+void h_nth_element_t(void) B_NTH_ELEMENT(4, 0, 2)
+/*@GROUP name=stable_sort props=C06,C02 kind=B bound=len<=4 unwind=7 solver=kissat objbits=12 timeout=600@*/
 void h_stable_sort(void) B_STABLE_SORT(4, a_stable_sort, 0, 2)
-/*@GROUP name=stable_sort_t props=C06,C02 kind=B bound=len<=6 unwind=9 solver=kissat tier=thorough timeout=3000@*/
+/*@GROUP name=stable_sort_t props=C06,C02 kind=B bound=len<=6 unwind=9 solver=kissat tier=thorough objbits=13 timeout=3000@*/
 void h_stable_sort_t(void) B_STABLE_SORT(6, a_stable_sort, 0, 2)
-/*@GROUP name=stable_sort_mod3 props=C06,C02 kind=B bound=len<=4,values_in_[-4,4] unwind=7 solver=kissat timeout=600@*/
+/*@GROUP name=stable_sort_mod3 props=C06,C02 kind=B bound=len<=4,values_in_[-4,4] unwind=7 solver=kissat objbits=12 timeout=600@*/
 void h_stable_sort_mod3(void) B_STABLE_SORT(4, a_stable_sort, 3, 3)
-/*@GROUP name=stable_sort_mod3_t props=C06,C02 kind=B bound=len<=6,values_in_[-4,4] unwind=9 solver=kissat tier=thorough timeout=3000@*/
+/*@GROUP name=stable_sort_mod3_t props=C06,C02 kind=B bound=len<=6,values_in_[-4,4] unwind=9 solver=kissat tier=thorough objbits=13 timeout=3000@*/
 void h_stable_sort_mod3_t(void) B_STABLE_SORT(6, a_stable_sort, 3, 3)
-/*@GROUP name=insertion_sort props=C06,C02 kind=B bound=len<=4 unwind=7 solver=kissat timeout=600@*/
+/*@GROUP name=insertion_sort props=C06,C02 kind=B bound=len<=4 unwind=7 solver=kissat objbits=12 timeout=600@*/
 void h_insertion_sort(void) B_STABLE_SORT(4, a_insertion_sort, 0, 2)
-/*@GROUP name=insertion_sort_t props=C06,C02 kind=B bound=len<=6 unwind=9 solver=kissat tier=thorough timeout=3000@*/
+/*@GROUP name=insertion_sort_t props=C06,C02 kind=B bound=len<=6 unwind=9 solver=kissat tier=thorough objbits=13 timeout=3000@*/
 void h_insertion_sort_t(void) B_STABLE_SORT(6, a_insertion_sort, 0, 2)
-/*@GROUP name=merge_sort props=C06,C02 kind=B bound=len<=3 unwind=6 solver=kissat timeout=600@*/
+/*@GROUP name=merge_sort props=C06,C02 kind=B bound=len<=3 unwind=6 solver=kissat objbits=12 timeout=600@*/
 void h_merge_sort(void) B_STABLE_SORT_T(3, a_merge_sort, 0, 2)
-/*@GROUP name=merge_sort_t props=C06,C02 kind=B bound=len<=5 unwind=8 solver=kissat tier=thorough timeout=3000@*/
+/*@GROUP name=merge_sort_t props=C06,C02 kind=B bound=len<=5 unwind=8 solver=kissat tier=thorough objbits=13 timeout=3000@*/
 void h_merge_sort_t(void) B_STABLE_SORT_T(5, a_merge_sort, 0, 2)
-/*@GROUP name=stable_sort_int props=C06,C02 kind=B bound=len<=4 unwind=7 solver=kissat timeout=600@*/
+/*@GROUP name=stable_sort_int props=C06,C02 kind=B bound=len<=4 unwind=7 solver=kissat objbits=12 timeout=600@*/
 void h_stable_sort_int(void) B_SORT_DEFAULT(4, a_stable_sort_int)
-/*@GROUP name=stable_sort_int_t props=C06,C02 kind=B bound=len<=6 unwind=9 solver=kissat tier=thorough timeout=3000@*/
+/*@GROUP name=stable_sort_int_t props=C06,C02 kind=B bound=len<=6 unwind=9 solver=kissat tier=thorough objbits=13 timeout=3000@*/
 void h_stable_sort_int_t(void) B_SORT_DEFAULT(6, a_stable_sort_int)
-/*@GROUP name=insertion_sort_int props=C06,C02 kind=B bound=len<=4 unwind=7 solver=kissat timeout=600@*/
+/*@GROUP name=insertion_sort_int props=C06,C02 kind=B bound=len<=4 unwind=7 solver=kissat objbits=12 timeout=600@*/
 void h_insertion_sort_int(void) B_SORT_DEFAULT(4, a_insertion_sort_int)
-/*@GROUP name=insertion_sort_int_t props=C06,C02 kind=B bound=len<=6 unwind=9 solver=kissat tier=thorough timeout=3000@*/
+/*@GROUP name=insertion_sort_int_t props=C06,C02 kind=B bound=len<=6 unwind=9 solver=kissat tier=thorough objbits=13 timeout=3000@*/
 void h_insertion_sort_int_t(void) B_SORT_DEFAULT(6, a_insertion_sort_int)
-/*@GROUP name=merge_sort_int props=C06,C02 kind=B bound=len<=4 unwind=7 solver=kissat timeout=600@*/
+/*@GROUP name=merge_sort_int props=C06,C02 kind=B bound=len<=4 unwind=7 solver=kissat objbits=12 timeout=600@*/
 void h_merge_sort_int(void) B_SORT_DEFAULT(4, a_merge_sort_int)
-/*@GROUP name=merge_sort_int_t props=C06,C02 kind=B bound=len<=6 unwind=9 solver=kissat tier=thorough timeout=3000@*/
+/*@GROUP name=merge_sort_int_t props=C06,C02 kind=B bound=len<=6 unwind=9 solver=kissat tier=thorough objbits=13 timeout=3000@*/
 void h_merge_sort_int_t(void) B_SORT_DEFAULT(6, a_merge_sort_int)
-/*@GROUP name=is_permutation3 props=C06,C02 kind=B bound=len<=4 unwind=7 solver=kissat timeout=600@*/
+/*@GROUP name=is_permutation3 props=C06,C02 kind=B bound=len<=4 unwind=7 solver=kissat objbits=12 timeout=600@*/
 void h_is_permutation3(void) B_IS_PERMUTATION3(4)
-/*@GROUP name=is_permutation3_t props=C06,C02 kind=B bound=len<=6 unwind=9 solver=kissat tier=thorough timeout=3000@*/
+/*@GROUP name=is_permutation3_t props=C06,C02 kind=B bound=len<=6 unwind=9 solver=kissat tier=thorough objbits=13 timeout=3000@*/
 void h_is_permutation3_t(void) B_IS_PERMUTATION3(6)
-/*@GROUP name=is_permutation4 props=C06,C02 kind=B bound=len<=4 unwind=7 solver=kissat timeout=600@*/
+/*@GROUP name=is_permutation4 props=C06,C02 kind=B bound=len<=4 unwind=7 solver=kissat objbits=12 timeout=600@*/
 void h_is_permutation4(void) B_IS_PERMUTATION4(4, a_is_permutation4, (void)0)
-/*@GROUP name=is_permutation4_t props=C06,C02 kind=B bound=len<=6 unwind=9 solver=kissat tier=thorough timeout=3000@*/
+/*@GROUP name=is_permutation4_t props=C06,C02 kind=B bound=len<=6 unwind=9 solver=kissat tier=thorough objbits=13 timeout=3000@*/
 void h_is_permutation4_t(void) B_IS_PERMUTATION4(6, a_is_permutation4, (void)0)
-/*@GROUP name=is_permutation4_fwd props=C06,C02 kind=B bound=len<=4 unwind=7 solver=kissat timeout=600@*/
+/*@GROUP name=is_permutation4_fwd props=C06,C02 kind=B bound=len<=4 unwind=7 solver=kissat objbits=12 timeout=600@*/
 void h_is_permutation4_fwd(void) B_IS_PERMUTATION4(4, a_is_permutation4_fwd, VF_KNOWN(C06_is_permutation4_forward_length, n != n2))
-/*@GROUP name=is_permutation4_fwd_t props=C06,C02 kind=B bound=len<=6 unwind=9 solver=kissat tier=thorough timeout=3000@*/
+/*@GROUP name=is_permutation4_fwd_t props=C06,C02 kind=B bound=len<=6 unwind=9 solver=kissat tier=thorough objbits=13 timeout=3000@*/
 void h_is_permutation4_fwd_t(void) B_IS_PERMUTATION4(6, a_is_permutation4_fwd, VF_KNOWN(C06_is_permutation4_forward_length, n != n2))
-/*@GROUP name=search props=C06,C02 kind=B bound=len<=4,needle<=4 unwind=7 solver=kissat timeout=600@*/
+/*@GROUP name=search props=C06,C02 kind=B bound=len<=4,needle<=4 unwind=7 solver=kissat objbits=12 timeout=600@*/
 void h_search(void) B_SEARCH(4, a_search, 0, 2)
-/*@GROUP name=search_t props=C06,C02 kind=B bound=len<=6,needle<=6 unwind=9 solver=kissat tier=thorough timeout=3000@*/
+/*@GROUP name=search_t props=C06,C02 kind=B bound=len<=6,needle<=6 unwind=9 solver=kissat tier=thorough objbits=13 timeout=3000@*/
 void h_search_t(void) B_SEARCH(6, a_search, 0, 2)
 /*@GROUP name=search_fwd props=C06,C02 kind=B bound=len<=4,needle<=4 unwind=7 solver=kissat objbits=12 timeout=600@*/
 void h_search_fwd(void) B_SEARCH(4, a_search_fwd, 0, 2)
-/*@GROUP name=search_fwd_t props=C06,C02 kind=B bound=len<=6,needle<=6 unwind=9 solver=kissat tier=thorough objbits=13 timeout=3000@*/
+/*@GROUP name=search_fwd_t props=C06,C02 kind=B bound=len<=6,needle<=6 unwind=9 solver=kissat tier=thorough objbits=14 timeout=3000@*/
 void h_search_fwd_t(void) B_SEARCH(6, a_search_fwd, 0, 2)
-/*@GROUP name=find_end props=C06,C02 kind=B bound=len<=4,needle<=4 unwind=7 solver=kissat timeout=600@*/
+/*@GROUP name=find_end props=C06,C02 kind=B bound=len<=4,needle<=4 unwind=7 solver=kissat objbits=12 timeout=600@*/
 void h_find_end(void) B_FIND_END(4, 0, 2)
-/*@GROUP name=find_end_t props=C06,C02 kind=B bound=len<=6,needle<=6 unwind=9 solver=kissat tier=thorough timeout=3000@*/
+/*@GROUP name=find_end_t props=C06,C02 kind=B bound=len<=6,needle<=6 unwind=9 solver=kissat tier=thorough objbits=13 timeout=3000@*/
 void h_find_end_t(void) B_FIND_END(6, 0, 2)
-/*@GROUP name=search_n props=C06,C02 kind=B bound=len<=4,count_in_[-1,len+1] unwind=7 solver=kissat timeout=600@*/
+/*@GROUP name=search_n props=C06,C02 kind=B bound=len<=4,count_in_[-1,len+1] unwind=7 solver=kissat objbits=12 timeout=600@*/
 void h_search_n(void) B_SEARCH_N(4, 0, 2, VF_KNOWN(C06_search_n_broken_run, s > 0 && idx < n && fm != idx))
-/*@GROUP name=search_n_t props=C06,C02 kind=B bound=len<=6,count_in_[-1,len+1] unwind=9 solver=kissat tier=thorough timeout=3000@*/
+/*@GROUP name=search_n_t props=C06,C02 kind=B bound=len<=6,count_in_[-1,len+1] unwind=9 solver=kissat tier=thorough objbits=13 timeout=3000@*/
 void h_search_n_t(void) B_SEARCH_N(6, 0, 2, VF_KNOWN(C06_search_n_broken_run, s > 0 && idx < n && fm != idx))
-/*@GROUP name=find_first_of props=C06,C02 kind=B bound=len<=4,needle<=4 unwind=7 solver=kissat timeout=600@*/
+/*@GROUP name=find_first_of props=C06,C02 kind=B bound=len<=4,needle<=4 unwind=7 solver=kissat objbits=12 timeout=600@*/
 void h_find_first_of(void) B_FIND_FIRST_OF(4, 0, 2)
-/*@GROUP name=find_first_of_t props=C06,C02 kind=B bound=len<=6,needle<=6 unwind=9 solver=kissat tier=thorough timeout=3000@*/
+/*@GROUP name=find_first_of_t props=C06,C02 kind=B bound=len<=6,needle<=6 unwind=9 solver=kissat tier=thorough objbits=13 timeout=3000@*/
 void h_find_first_of_t(void) B_FIND_FIRST_OF(6, 0, 2)
-/*@GROUP name=includes props=C06,C02 kind=B bound=len1<=4,len2<=4 unwind=11 solver=kissat timeout=600@*/
+/*@GROUP name=includes props=C06,C02 kind=B bound=len1<=4,len2<=4 unwind=11 solver=kissat objbits=12 timeout=600@*/
 void h_includes(void) B_INCLUDES(4, 0, 3)
-/*@GROUP name=includes_t props=C06,C02 kind=B bound=len1<=6,len2<=6 unwind=15 solver=kissat tier=thorough timeout=3000@*/
+/*@GROUP name=includes_t props=C06,C02 kind=B bound=len1<=6,len2<=6 unwind=15 solver=kissat tier=thorough objbits=13 timeout=3000@*/
 void h_includes_t(void) B_INCLUDES(6, 0, 3)
-/*@GROUP name=merge props=C06,C02 kind=B bound=len1<=3,len2<=3 unwind=9 solver=kissat timeout=600@*/
+/*@GROUP name=merge props=C06,C02 kind=B bound=len1<=3,len2<=3 unwind=9 solver=kissat objbits=12 timeout=600@*/
 void h_merge(void) B_MERGE(3, a_merge(a, a + na, b, b + nb, d, c), 0, 2)
-/*@GROUP name=merge_t props=C06,C02 kind=B bound=len1<=5,len2<=5 unwind=13 solver=kissat tier=thorough timeout=3000@*/
+/*@GROUP name=merge_t props=C06,C02 kind=B bound=len1<=5,len2<=5 unwind=13 solver=kissat tier=thorough objbits=13 timeout=3000@*/
 void h_merge_t(void) B_MERGE(5, a_merge(a, a + na, b, b + nb, d, c), 0, 2)
-/*@GROUP name=merge_mod3 props=C06,C02 kind=B bound=len1<=3,len2<=3,values_in_[-4,4] unwind=9 solver=kissat timeout=600@*/
+/*@GROUP name=merge_mod3 props=C06,C02 kind=B bound=len1<=3,len2<=3,values_in_[-4,4] unwind=9 solver=kissat objbits=12 timeout=600@*/
 void h_merge_mod3(void) B_MERGE(3, a_merge(a, a + na, b, b + nb, d, c), 3, 3)
-/*@GROUP name=merge_mod3_t props=C06,C02 kind=B bound=len1<=5,len2<=5,values_in_[-4,4] unwind=13 solver=kissat tier=thorough timeout=3000@*/
+/*@GROUP name=merge_mod3_t props=C06,C02 kind=B bound=len1<=5,len2<=5,values_in_[-4,4] unwind=13 solver=kissat tier=thorough objbits=13 timeout=3000@*/
 void h_merge_mod3_t(void) B_MERGE(5, a_merge(a, a + na, b, b + nb, d, c), 3, 3)
-/*@GROUP name=merge_int props=C06,C02 kind=B bound=len1<=4,len2<=4 unwind=11 solver=kissat timeout=600@*/
+/*@GROUP name=merge_int props=C06,C02 kind=B bound=len1<=4,len2<=4 unwind=11 solver=kissat objbits=12 timeout=600@*/
 void h_merge_int(void) B_MERGE(4, a_merge_int(a, a + na, b, b + nb, d), 4, 4)
-/*@GROUP name=merge_int_t props=C06,C02 kind=B bound=len1<=6,len2<=6 unwind=15 solver=kissat tier=thorough timeout=3000@*/
+/*@GROUP name=merge_int_t props=C06,C02 kind=B bound=len1<=6,len2<=6 unwind=15 solver=kissat tier=thorough objbits=13 timeout=3000@*/
 void h_merge_int_t(void) B_MERGE(6, a_merge_int(a, a + na, b, b + nb, d), 4, 4)
-/*@GROUP name=merge_fwd props=C06,C02 kind=B bound=len1<=4,len2<=4 unwind=11 solver=kissat timeout=600@*/
+/*@GROUP name=merge_fwd props=C06,C02 kind=B bound=len1<=4,len2<=4 unwind=11 solver=kissat objbits=12 timeout=600@*/
 void h_merge_fwd(void) B_MERGE(4, a_merge_fwd(a, a + na, b, b + nb, d), 4, 4)
-/*@GROUP name=merge_fwd_t props=C06,C02 kind=B bound=len1<=6,len2<=6 unwind=15 solver=kissat tier=thorough timeout=3000@*/
+/*@GROUP name=merge_fwd_t props=C06,C02 kind=B bound=len1<=6,len2<=6 unwind=15 solver=kissat tier=thorough objbits=13 timeout=3000@*/
 void h_merge_fwd_t(void) B_MERGE(6, a_merge_fwd(a, a + na, b, b + nb, d), 4, 4)
-/*@GROUP name=inplace_merge props=C06,C02 kind=B bound=len<=3 unwind=6 solver=kissat timeout=600@*/
+/*@GROUP name=inplace_merge props=C06,C02 kind=B bound=len<=3 unwind=9 solver=kissat objbits=12 timeout=600@*/
 void h_inplace_merge(void) B_INPLACE_MERGE(3, a_inplace_merge(a, a + m, a + n, c), 0, 2)
-/*@GROUP name=inplace_merge_t props=C06,C02 kind=B bound=len<=5 unwind=8 solver=kissat tier=thorough timeout=3000@*/
+/*@GROUP name=inplace_merge_t props=C06,C02 kind=B bound=len<=5 unwind=13 solver=kissat tier=thorough objbits=13 timeout=3000@*/
 void h_inplace_merge_t(void) B_INPLACE_MERGE(5, a_inplace_merge(a, a + m, a + n, c), 0, 2)
-/*@GROUP name=inplace_merge_int props=C06,C02 kind=B bound=len<=4 unwind=7 solver=kissat timeout=600@*/
+/*@GROUP name=inplace_merge_int props=C06,C02 kind=B bound=len<=4 unwind=11 solver=kissat objbits=12 timeout=600@*/
 void h_inplace_merge_int(void) B_INPLACE_MERGE(4, a_inplace_merge_int(a, a + m, a + n), 4, 4)
-/*@GROUP name=inplace_merge_int_t props=C06,C02 kind=B bound=len<=6 unwind=9 solver=kissat tier=thorough timeout=3000@*/
+/*@GROUP name=inplace_merge_int_t props=C06,C02 kind=B bound=len<=6 unwind=15 solver=kissat tier=thorough objbits=13 timeout=3000@*/
 void h_inplace_merge_int_t(void) B_INPLACE_MERGE(6, a_inplace_merge_int(a, a + m, a + n), 4, 4)
-/*@GROUP name=set_union props=C06,C02 kind=B bound=len1<=3,len2<=3 unwind=9 solver=kissat timeout=600@*/
+/*@GROUP name=set_union props=C06,C02 kind=B bound=len1<=3,len2<=3 unwind=9 solver=kissat objbits=12 timeout=600@*/
 void h_set_union(void) B_SETOP(3, OP_UNION, a_set_union(a, a + na, b, b + nb, d, c), "set_union", 0, 2)
-/*@GROUP name=set_union_t props=C06,C02 kind=B bound=len1<=5,len2<=5 unwind=13 solver=kissat tier=thorough timeout=3000@*/
+/*@GROUP name=set_union_t props=C06,C02 kind=B bound=len1<=5,len2<=5 unwind=13 solver=kissat tier=thorough objbits=13 timeout=3000@*/
 void h_set_union_t(void) B_SETOP(5, OP_UNION, a_set_union(a, a + na, b, b + nb, d, c), "set_union", 0, 2)
-/*@GROUP name=set_union_int props=C06,C02 kind=B bound=len1<=4,len2<=4 unwind=11 solver=kissat timeout=600@*/
+/*@GROUP name=set_union_int props=C06,C02 kind=B bound=len1<=4,len2<=4 unwind=11 solver=kissat objbits=12 timeout=600@*/
 void h_set_union_int(void) B_SETOP(4, OP_UNION, a_set_ops_int(0, a, a + na, b, b + nb, d), "set_union", 4, 4)
-/*@GROUP name=set_union_int_t props=C06,C02 kind=B bound=len1<=6,len2<=6 unwind=15 solver=kissat tier=thorough timeout=3000@*/
+/*@GROUP name=set_union_int_t props=C06,C02 kind=B bound=len1<=6,len2<=6 unwind=15 solver=kissat tier=thorough objbits=13 timeout=3000@*/
 void h_set_union_int_t(void) B_SETOP(6, OP_UNION, a_set_ops_int(0, a, a + na, b, b + nb, d), "set_union", 4, 4)
-/*@GROUP name=set_intersection props=C06,C02 kind=B bound=len1<=3,len2<=3 unwind=9 solver=kissat timeout=600@*/
+/*@GROUP name=set_intersection props=C06,C02 kind=B bound=len1<=3,len2<=3 unwind=9 solver=kissat objbits=12 timeout=600@*/
 void h_set_intersection(void) B_SETOP(3, OP_INTER, a_set_intersection(a, a + na, b, b + nb, d, c), "set_intersection", 0, 2)
-/*@GROUP name=set_intersection_t props=C06,C02 kind=B bound=len1<=5,len2<=5 unwind=13 solver=kissat tier=thorough timeout=3000@*/
+/*@GROUP name=set_intersection_t props=C06,C02 kind=B bound=len1<=5,len2<=5 unwind=13 solver=kissat tier=thorough objbits=13 timeout=3000@*/
 void h_set_intersection_t(void) B_SETOP(5, OP_INTER, a_set_intersection(a, a + na, b, b + nb, d, c), "set_intersection", 0, 2)
-/*@GROUP name=set_intersection_int props=C06,C02 kind=B bound=len1<=4,len2<=4 unwind=11 solver=kissat timeout=600@*/
+/*@GROUP name=set_intersection_int props=C06,C02 kind=B bound=len1<=4,len2<=4 unwind=11 solver=kissat objbits=12 timeout=600@*/
 void h_set_intersection_int(void) B_SETOP(4, OP_INTER, a_set_ops_int(1, a, a + na, b, b + nb, d), "set_intersection", 4, 4)
-/*@GROUP name=set_intersection_int_t props=C06,C02 kind=B bound=len1<=6,len2<=6 unwind=15 solver=kissat tier=thorough timeout=3000@*/
+/*@GROUP name=set_intersection_int_t props=C06,C02 kind=B bound=len1<=6,len2<=6 unwind=15 solver=kissat tier=thorough objbits=13 timeout=3000@*/
 void h_set_intersection_int_t(void) B_SETOP(6, OP_INTER, a_set_ops_int(1, a, a + na, b, b + nb, d), "set_intersection", 4, 4)
-/*@GROUP name=set_difference props=C06,C02 kind=B bound=len1<=3,len2<=3 unwind=9 solver=kissat timeout=600@*/
+/*@GROUP name=set_difference props=C06,C02 kind=B bound=len1<=3,len2<=3 unwind=9 solver=kissat objbits=12 timeout=600@*/
 void h_set_difference(void) B_SETOP(3, OP_DIFF, a_set_difference(a, a + na, b, b + nb, d, c), "set_difference", 0, 2)
-/*@GROUP name=set_difference_t props=C06,C02 kind=B bound=len1<=5,len2<=5 unwind=13 solver=kissat tier=thorough timeout=3000@*/
+/*@GROUP name=set_difference_t props=C06,C02 kind=B bound=len1<=5,len2<=5 unwind=13 solver=kissat tier=thorough objbits=13 timeout=3000@*/
 void h_set_difference_t(void) B_SETOP(5, OP_DIFF, a_set_difference(a, a + na, b, b + nb, d, c), "set_difference", 0, 2)
-/*@GROUP name=set_difference_int props=C06,C02 kind=B bound=len1<=4,len2<=4 unwind=11 solver=kissat timeout=600@*/
+/*@GROUP name=set_difference_int props=C06,C02 kind=B bound=len1<=4,len2<=4 unwind=11 solver=kissat objbits=12 timeout=600@*/
 void h_set_difference_int(void) B_SETOP(4, OP_DIFF, a_set_ops_int(2, a, a + na, b, b + nb, d), "set_difference", 4, 4)
-/*@GROUP name=set_difference_int_t props=C06,C02 kind=B bound=len1<=6,len2<=6 unwind=15 solver=kissat tier=thorough timeout=3000@*/
+/*@GROUP name=set_difference_int_t props=C06,C02 kind=B bound=len1<=6,len2<=6 unwind=15 solver=kissat tier=thorough objbits=13 timeout=3000@*/
 void h_set_difference_int_t(void) B_SETOP(6, OP_DIFF, a_set_ops_int(2, a, a + na, b, b + nb, d), "set_difference", 4, 4)
-/*@GROUP name=set_symmetric_difference props=C06,C02 kind=B bound=len1<=3,len2<=3 unwind=9 solver=kissat timeout=600@*/
+/*@GROUP name=set_symmetric_difference props=C06,C02 kind=B bound=len1<=3,len2<=3 unwind=9 solver=kissat objbits=12 timeout=600@*/
 void h_set_symmetric_difference(void) B_SETOP(3, OP_SYM, a_set_symmetric_difference(a, a + na, b, b + nb, d, c), "set_symmetric_difference", 0, 2)
-/*@GROUP name=set_symmetric_difference_t props=C06,C02 kind=B bound=len1<=5,len2<=5 unwind=13 solver=kissat tier=thorough timeout=3000@*/
+/*@GROUP name=set_symmetric_difference_t props=C06,C02 kind=B bound=len1<=5,len2<=5 unwind=13 solver=kissat tier=thorough objbits=13 timeout=3000@*/
 void h_set_symmetric_difference_t(void) B_SETOP(5, OP_SYM, a_set_symmetric_difference(a, a + na, b, b + nb, d, c), "set_symmetric_difference", 0, 2)
-/*@GROUP name=set_symmetric_difference_int props=C06,C02 kind=B bound=len1<=4,len2<=4 unwind=11 solver=kissat timeout=600@*/
+/*@GROUP name=set_symmetric_difference_int props=C06,C02 kind=B bound=len1<=4,len2<=4 unwind=11 solver=kissat objbits=12 timeout=600@*/
 void h_set_symmetric_difference_int(void) B_SETOP(4, OP_SYM, a_set_ops_int(3, a, a + na, b, b + nb, d), "set_symmetric_difference", 4, 4)
-/*@GROUP name=set_symmetric_difference_int_t props=C06,C02 kind=B bound=len1<=6,len2<=6 unwind=15 solver=kissat tier=thorough timeout=3000@*/
+/*@GROUP name=set_symmetric_difference_int_t props=C06,C02 kind=B bound=len1<=6,len2<=6 unwind=15 solver=kissat tier=thorough objbits=13 timeout=3000@*/
 void h_set_symmetric_difference_int_t(void) B_SETOP(6, OP_SYM, a_set_ops_int(3, a, a + na, b, b + nb, d), "set_symmetric_difference", 4, 4)
-/*@GROUP name=set_ops_mod3 props=C06,C02 kind=B bound=len1<=3,len2<=3,values_in_[-4,4] unwind=9 solver=kissat timeout=600@*/
+/*@GROUP name=set_ops_mod3 props=C06,C02 kind=B bound=len1<=3,len2<=3,values_in_[-4,4] unwind=9 solver=kissat objbits=12 timeout=600@*/
 void h_set_ops_mod3(void) B_SETOP(3, OP_SYM, a_set_symmetric_difference(a, a + na, b, b + nb, d, c), "set_symmetric_difference", 3, 3)
-/*@GROUP name=set_ops_mod3_t props=C06,C02 kind=B bound=len1<=5,len2<=5,values_in_[-4,4] unwind=13 solver=kissat tier=thorough timeout=3000@*/
+/*@GROUP name=set_ops_mod3_t props=C06,C02 kind=B bound=len1<=5,len2<=5,values_in_[-4,4] unwind=13 solver=kissat tier=thorough objbits=13 timeout=3000@*/
 void h_set_ops_mod3_t(void) B_SETOP(5, OP_SYM, a_set_symmetric_difference(a, a + na, b, b + nb, d, c), "set_symmetric_difference", 3, 3)
-/*@GROUP name=transform_reduce props=C06,C02 kind=B bound=len<=4 unwind=7 solver=kissat timeout=600@*/
+/*@GROUP name=transform_reduce props=C06,C02 kind=B bound=len<=4 unwind=7 solver=kissat objbits=12 timeout=600@*/
 void h_transform_reduce(void) B_TRANSFORM_REDUCE(4)
-/*@GROUP name=transform_reduce_t props=C06,C02 kind=B bound=len<=6 unwind=9 solver=kissat tier=thorough timeout=3000@*/
+/*@GROUP name=transform_reduce_t props=C06,C02 kind=B bound=len<=6 unwind=9 solver=kissat tier=thorough objbits=13 timeout=3000@*/
 void h_transform_reduce_t(void) B_TRANSFORM_REDUCE(6)
 
 /* ============================================================ iterator adaptors ===============================================
